@@ -44,7 +44,11 @@ type Prepared struct {
 	// server answers 400 before any handler runs.
 	BadHTTP bool
 
-	d    *proxy.DNSContext
+	d *proxy.DNSContext
+	// px is the proxy instance that received the request (created its
+	// context): the one that handles it, also if the server has replaced it by
+	// a new one in the meantime.
+	px   *proxy.Proxy
 	conn *fakeConn
 	qs   *fakeQUICStream
 	qc   *fakeQUICConn
@@ -96,7 +100,8 @@ func (n *Node) Prepare(q *Query) (p *Prepared, err error) {
 	default:
 		return nil, fmt.Errorf("harness: unknown proto %q", q.Proto)
 	}
-	d := proxyNewDNSContext(n.Proxy, proto, req, q.Addr)
+	p.px = n.Proxy
+	d := proxyNewDNSContext(p.px, proto, req, q.Addr)
 	p.d, p.RequestID = d, d.RequestID
 	switch q.Proto {
 	case "udp":
@@ -145,7 +150,7 @@ func (n *Node) Handle(p *Prepared) (r *Reply) {
 		}
 	default:
 		d := p.d
-		r.Err = proxyHandleDNSRequest(n.Proxy, d)
+		r.Err = proxyHandleDNSRequest(p.px, d)
 		switch {
 		case p.Q.Proto == "udp":
 			if d.Res != nil {
